@@ -6,11 +6,15 @@
   with a whole-program supported-model check). Helper lemmas: ILV.Lemmas.Datalog / Engine.
 
   The full statement is false of the faithful model (the code has defects): `C01_refuted`
-  (mutual recursion) and three further refutations, one per always-on clause-level defect.
+  (mutual recursion) and one further refutation for the remaining always-on clause-level defect
+  (dropped equality; the push-down defect is repaired on the `ir` branch: fixes/C05-pushdown_right_past_join_key.diff)
+  (the wildcard-naming defect is repaired: fixes/C01-same_relation_wildcard_position.diff).
   `C01_partial` is the part that is proved: non-recursive, aggregate-free programs whose
   execution order (the code's own topological sort) respects the dependencies.
 -/
 import ILV.Lemmas.Engine
+import ILV.Lemmas.Spec
+import ILV.Lemmas.Faithful
 import ILV.Drv.C01
 namespace ILV.Props.C01
 open ILV ILV.DL ILV.Engine
@@ -58,44 +62,6 @@ theorem C01_refuted : ¬ C01_statement := by
 /-- the witness is in the identifying class of the known finding. -/
 example : Drv.C01.hasMutualRecursiveScc evenOdd = true := by decide
 
-/-- `q(X,Z) <- e(X,Y), f(Y,Z), Z > 1`: the optimizer tests `Z > 1` on column 0 of `f` (= `Y`). -/
-def joinFilter : Program := [
-  { hrel := "q", hargs := [.var "X", .var "Z"],
-    body := [a2 "e" "X" "Y", a2 "f" "Y" "Z", .cmp .gt (.var "Z") (.const 1)] } ]
-def joinFilterDb : DB := [("e", [[.i64 1, .i64 2]]), ("f", [[.i64 2, .i64 5], [.i64 2, .i64 0]])]
-
-theorem C01_refuted_pushdown :
-    ∃ A acc M, Engine.run allOff noHash anyOrd 8 joinFilter joinFilterDb = .ok A acc ∧
-      pmEval 8 joinFilter joinFilterDb = some M ∧ [Value.i64 1, Value.i64 0] ∈ A ∧
-      [Value.i64 1, Value.i64 0] ∉ M.get (queryRel joinFilter) := by
-  have hpm : (pmEval 8 joinFilter joinFilterDb).isSome = true := by decide
-  obtain ⟨M, hM⟩ := Option.isSome_iff_exists.1 hpm
-  refine ⟨[[.i64 1, .i64 5], [.i64 1, .i64 0]], [("q", [[.i64 1, .i64 5], [.i64 1, .i64 0]])], M, by decide, hM, by decide, ?_⟩
-  have : (pmEval 8 joinFilter joinFilterDb).map (fun m => (m.get (queryRel joinFilter)).contains [Value.i64 1, Value.i64 0]) = some false := by decide
-  rw [hM] at this
-  simpa using this
-
-example : Drv.C01.pushdownShift (joinFilter.getD 0 default) = true := by decide
-
-/-- `q(X,Y) <- e(X,_), e(Y,_)`: both wildcards are named `_ph_e_1`, so they are joined. -/
-def wildPair : Program := [
-  { hrel := "q", hargs := [.var "X", .var "Y"],
-    body := [.pos ⟨"e", [.var "X", .wild]⟩, .pos ⟨"e", [.var "Y", .wild]⟩] } ]
-def wildDb : DB := [("e", [[.i64 1, .i64 2], [.i64 3, .i64 1]])]
-
-theorem C01_refuted_wildcard :
-    ∃ A acc M, Engine.run allOff noHash anyOrd 8 wildPair wildDb = .ok A acc ∧
-      pmEval 8 wildPair wildDb = some M ∧ [Value.i64 1, Value.i64 3] ∉ A ∧
-      [Value.i64 1, Value.i64 3] ∈ M.get (queryRel wildPair) := by
-  have hpm : (pmEval 8 wildPair wildDb).isSome = true := by decide
-  obtain ⟨M, hM⟩ := Option.isSome_iff_exists.1 hpm
-  refine ⟨[[.i64 1, .i64 1], [.i64 3, .i64 3]], [("q", [[.i64 1, .i64 1], [.i64 3, .i64 3]])], M, by decide, hM, by decide, ?_⟩
-  have : (pmEval 8 wildPair wildDb).map (fun m => (m.get (queryRel wildPair)).contains [Value.i64 1, Value.i64 3]) = some true := by decide
-  rw [hM] at this
-  simpa using this
-
-example : wildPair.any Drv.C01.sameRelWildcard = true := by decide
-
 /-- `q(X) <- e(X,Y), Z = Y + 1, Z = X`: the second equality is neither computed nor filtered. -/
 def dropEq : Program := [
   { hrel := "q", hargs := [.var "X"],
@@ -120,7 +86,7 @@ example : dropEq.any Drv.C01.droppedEquality = true := by decide
     partitioner, any emission order, any fuel) answers `A`, and the Spec's least model is `M`, then
     `A` is exactly the query relation of `M` — provided the clauses are evaluated faithfully
     (`ClauseFaithful`, see `clauseFaithful_of_simple` for a decidable sufficient condition; it
-    fails exactly on the three clause-level defects refuted above). -/
+    fails exactly on the clause-level defects refuted above). -/
 theorem C01_partial (p : Program) (edb : DB) (hash : Tuple → Nat) (ord : String → List Tuple → List Tuple)
     (fuel fuel' : Nat) (A : List Tuple) (acc M : DB)
     (hfrag : inFragment p edb = true) (hcf : ClauseFaithful p)
@@ -156,6 +122,41 @@ theorem C01_partial_simple (p : Program) (edb : DB) (hash : Tuple → Nat) (ord 
     (hpm : pmEval fuel' p edb = some M) :
     MemEq A (M.get (queryRel p)) :=
   C01_partial p edb hash ord fuel fuel' A acc M hfrag (clauseFaithful_of_simple p hsimple) hrun hpm
+
+/-- `C01_partial` with every hypothesis decidable, for the larger fragment of *filter rules*: positive
+    and negated atoms with variables, constants, wildcards, repeated variables, and comparison
+    literals (all six operators, arithmetic on one side) over variables bound by positive atoms. -/
+theorem C01_partial_filter (p : Program) (edb : DB) (hash : Tuple → Nat) (ord : String → List Tuple → List Tuple)
+    (fuel fuel' : Nat) (A : List Tuple) (acc M : DB)
+    (hfrag : inFragment p edb = true) (hfilter : p.all filterRule = true)
+    (hrun : Engine.run allOff hash ord fuel p edb = .ok A acc)
+    (hpm : pmEval fuel' p edb = some M) :
+    MemEq A (M.get (queryRel p)) :=
+  C01_partial p edb hash ord fuel fuel' A acc M hfrag (clauseFaithful_of_filter p hfilter) hrun hpm
+
+/-- the former push-down and wildcard counterexamples are inside this fragment now. -/
+def joinFilter : Program := [
+  { hrel := "q", hargs := [.var "X", .var "Z"],
+    body := [a2 "e" "X" "Y", a2 "f" "Y" "Z", .cmp .gt (.var "Z") (.const 1)] } ]
+def joinFilterDb : DB := [("e", [[.i64 1, .i64 2]]), ("f", [[.i64 2, .i64 5], [.i64 2, .i64 0]])]
+def wildPair : Program := [
+  { hrel := "q", hargs := [.var "X", .var "Y"],
+    body := [.pos ⟨"e", [.var "X", .wild]⟩, .pos ⟨"e", [.var "Y", .wild]⟩, .cmp .le (.var "X") (.bin .add (.var "Y") (.const 0))] } ]
+def wildDb : DB := [("e", [[.i64 1, .i64 2], [.i64 3, .i64 1]])]
+
+example : inFragment joinFilter joinFilterDb = true ∧ joinFilter.all filterRule = true ∧
+    (Engine.run allOff noHash anyOrd 8 joinFilter joinFilterDb).toWire = "i64:1,i64:5" ∧
+    inFragment wildPair wildDb = true ∧ wildPair.all filterRule = true ∧
+    (Engine.run allOff noHash anyOrd 8 wildPair wildDb).toWire = "i64:1,i64:1;i64:1,i64:3;i64:3,i64:3" := by
+  decide
+
+/-- The Spec's executable clause meaning is sound for the declarative one: every tuple derived by
+    `evalRuleLk` (aggregate-free rule without comparison literals) is the head instance of a
+    valuation that maps every positive atom onto a stored tuple and no negated atom onto any. -/
+theorem spec_clause_sound (lk : String → List Tuple) (r : Rule) (hagg : r.hasAgg = false) (hc : r.cmps = [])
+    (ts : List Tuple) (h : evalRuleLk lk r = some ts) (t : Tuple) (ht : t ∈ ts) :
+    ∃ env, BodySat lk r env ∧ HeadInst r env t :=
+  evalRuleLk_sound lk r hagg hc ts h t ht
 
 /-- A three-head chain with a join, a negation over a derived head and a constant, written in an
     order in which the code's topological sort has to move heads (`b` is defined before `a`). -/
